@@ -258,13 +258,24 @@ class Builder:
         from pmutt.empirical.nasa import Nasa9
         r = self.rnd
         kw = self._emp_kwargs(kids, hint, 'N9')
-        # contiguous temperature windows
+        # contiguous temperature windows (adjacent windows share a bound and have different
+        # coefficients), handed to the constructor in ascending, descending or shuffled order:
+        # the stored order decides which polynomial answers at a shared bound
         nasas = kids['nasas']
+        order = list(range(len(nasas)))
+        how = hint.get('order') or r.choice(['ascending', 'descending', 'descending', 'shuffled'])
+        if how == 'descending':
+            order.reverse()
+        elif how == 'shuffled':
+            r.shuffle(order)
         lo = _f(r, 150., 320.)
-        for n9 in nasas:
-            n9.T_low = lo
-            lo = lo + _f(r, 500., 1500.)
-            n9.T_high = lo
+        windows = []
+        for _ in nasas:
+            hi = lo + _f(r, 500., 1500.)
+            windows.append((lo, hi))
+            lo = hi
+        for n9, w in zip(nasas, order):
+            n9.T_low, n9.T_high = windows[w]
         return Nasa9(nasas=nasas, n_sites=r.choice([2, 3, 4]), **kw)
 
     def b_Reference(self, kids, hint):
@@ -492,6 +503,32 @@ def call_getter(o, name, kwargs):
         return {'raised': True, 'err': type(ex).__name__, 'nf': [], 'vals': []}
 
 
+def nasa9_temperatures(o):
+    try:
+        wins = sorted((float(n.T_low), float(n.T_high)) for n in o.nasas)
+    except Exception:
+        return []
+    pts = []
+    for lo, hi in wins[:4]:
+        pts += [lo, 0.5 * (lo + hi)]
+    if wins:
+        pts.append(wins[min(len(wins), 4) - 1][1])
+    return pts
+
+
+def child_signature(x):
+    """Short identity of one child (class and its own scalar labels): the ORDER of the children of a
+    list slot is compared through the sequence of these."""
+    if isinstance(x, dict):
+        return 'dict:' + tag_class(x.get('class'))
+    parts = [type(x).__name__]
+    for a in ('name', 'id', 'name_i', 'name_j', 'T_low', 'T_high', 'HoRT_ref', 'einstein_temperature'):
+        v = getattr(x, a, None)
+        if isinstance(v, (str, int, float)) and not isinstance(v, bool):
+            parts.append('%s=%r' % (a, v))
+    return '|'.join(parts)
+
+
 THERMO = ['get_q', 'get_CvoR', 'get_CpoR', 'get_UoRT', 'get_HoRT', 'get_SoR', 'get_FoRT', 'get_GoRT']
 RXN = ['get_delta_HoRT', 'get_delta_SoR', 'get_delta_GoRT', 'get_delta_CpoR', 'get_Keq',
        'get_HoRT_act', 'get_GoRT_act', 'get_SoR_act', 'get_A']
@@ -589,6 +626,13 @@ class Walker:
                 kw = dict(STATE_POINTS[sp])
                 kw.update(extra)
                 items.append([label, call_getter(o1, meth, kw), call_getter(o2, meth, kw)])
+            if cls == 'Nasa9':
+                # temperatures ON the bounds shared by two windows and inside every window
+                for j, T in enumerate(nasa9_temperatures(o1)):
+                    for meth in ('get_CpoR', 'get_HoRT', 'get_SoR'):
+                        kw = dict(STATE_POINTS[sp])
+                        kw['T'] = T
+                        items.append(['%s@T%d' % (meth, j), call_getter(o1, meth, kw), call_getter(o2, meth, kw)])
             evs.append({'ev': 'getters', 'act': act, 'path': p, 'cls': cls, 'items': items})
         return evs
 
@@ -620,7 +664,8 @@ class Walker:
                 raise core.MachineryError('built %s.%s has %r children, abstract tree has %d'
                                           % (c, sl['s'], None if k1 is None else len(k1), len(want)))
             k2 = children(dec, sl['s'])
-            ev['slots'].append([sl['s'], len(want), -1 if k2 is None else len(k2)])
+            ev['slots'].append([sl['s'], len(want), -1 if k2 is None else len(k2),
+                                [child_signature(x) for x in k1], [child_signature(x) for x in (k2 or [])]])
             if k2 is None or len(k2) != len(want):
                 continue
             for i, (w, o1, o2) in enumerate(zip(want, k1, k2)):
@@ -820,6 +865,18 @@ _EXTRA_SCHEMA = {}           # filled by run_lifecycle (the schema comes from TL
 EXTRAS = {'lsr_floats': _extra_lsr_floats, 'reaction_unnamed': _extra_reaction_unnamed}
 for _c, _ph in (('Nasa', 'G'), ('Nasa', 'Gas'), ('Shomate', 'GAS'), ('Nasa9', 'G'), ('Shomate', 'gas')):
     EXTRAS['gas_noadj:%s:%s' % (_c, _ph)] = _extra_gas_noadj(_c, _ph)
+def _extra_nasa9(n, how):
+    def get(rnd):
+        tree = {'c': 'Nasa9', 'k': {'nasas': [{'c': 'SingleNasa9', 'k': []}] * n, 'model': [], 'misc_models': []}}
+        b = Builder(_EXTRA_SCHEMA, rnd)
+        b._hint = lambda c, slot, node: {}
+        obj = b.b_Nasa9({'nasas': [b.build(t) for t in tree['k']['nasas']], 'misc_models': []}, {'order': how})
+        return obj
+    return get
+
+
+for _n, _how in ((2, 'descending'), (3, 'descending'), (3, 'shuffled'), (4, 'shuffled'), (4, 'ascending')):
+    EXTRAS['nasa9:%d:%s' % (_n, _how)] = _extra_nasa9(_n, _how)
 for _st in ('explicit', 'stale'):
     EXTRAS['references:%s' % _st] = _extra_references(_st, False)
     EXTRAS['statmech_references:%s' % _st] = _extra_references(_st, True)
